@@ -208,17 +208,18 @@ func imagesDoc(r *rand.Rand, names []string, perPage int) []byte {
 	return s.bytes(r, "1.7")
 }
 
-// contentName writes a resource name inside a content stream. pdfcpu compares the RAW token of the content stream
-// with the DECODED key of the resource dictionary (it does not resolve #xx in content streams), and extracts only
-// resources a page uses; so every byte that may stand for itself in a name (anything but white space, delimiters
-// and '#') is written raw - the hostile name then reaches the extraction code - and only the rest as #xx.
+// contentName writes a resource name inside a content stream. Probed against pdfcpu: it compares the RAW text that
+// follows '/' in the content stream (up to the operator, white space and '/' included, #xx NOT resolved) with the
+// DECODED key of the resource dictionary, and extracts only resources a page uses. So the name is written raw -
+// the hostile name then reaches the extraction code - except for the bytes that derail pdfcpu's content scanner
+// (NUL, parentheses, '<', '['), which are written as #xx (such names are never matched, hence never extracted).
 func contentName(s string) string {
 	var b []byte
 	b = append(b, '/')
 	for i := 0; i < len(s); i++ {
 		c := s[i]
 		switch c {
-		case 0, 9, 10, 12, 13, 32, '(', ')', '<', '>', '[', ']', '{', '}', '/', '%', '#':
+		case 0, '(', ')', '<', '[':
 			b = append(b, fmt.Sprintf("#%02X", c)...)
 		default:
 			b = append(b, c)
